@@ -70,7 +70,8 @@ CHECKS = {
         "through an independent connection: every batch all-or-none, acknowledged batches present, integrity_check ok; concurrent "
         "readers must never see a partial batch; commit orders are recorded; writers on fresh connections per batch; 400+-row batches "
         "with sampled interruption points; a write lock held by another connection around the busy timeout; batches handed to the shipped store "
-        "logger (log + flush) and traces that differ only in the order of a union's members (distinct rows).",
+        "logger (log + flush), traces that differ only in the order of a union's members (distinct rows), identifiers beyond Latin-1 after a "
+        "prefix, rows back-dated between two additions of one batch.",
         "Crash = process kill / syscall error, not power loss; SQLite itself is trusted to implement rollback-journal recovery.",
         "6 C09",
     ),
@@ -93,7 +94,8 @@ CHECKS = {
         "seeds of the global RNG: rates None/1 must equal the C02 expectation; at rates > 1 every logged trace must faithfully match a "
         "real completion in order (argument types at PY_START), nothing may stay in tracer.traces, and the traced fraction of plain "
         "calls must be within 6 sigma of 1/N over >= 20000 calls (globally, and per function in fixed call patterns incl. calls right after "
-        "frames no function can be found for); long loops at rates 100, 1000, 3 and 7.",
+        "frames no function can be found for); long loops at rates 100, 1000, 3 and 7; series of hundreds of short blocks with fresh "
+        "tracers (per-position counts against binomial bounds, number of distinct block outcomes).",
         "As C02.",
         "6 C18",
     ),
@@ -106,7 +108,8 @@ CHECKS = {
         "`monkeytype run` under default, allow-list and custom-filter configs and the rows in the store compared with the functions "
         "admitted and called (none from __main__, none rejected, every admitted one); sessions of six tracing blocks in one interpreter "
         "sharing a logger / Config object with a different custom filter per block: logged == called & accepted, per block (also over the "
-        "source executed as the running script, and with modules only importlib can name).",
+        "source executed as the running script, functions behind closure / class-based / lru_cache decorators, a self-referential nested function, "
+        "and with modules only importlib can name).",
         "The filter reads only co_filename; sysconfig roots of this installation.",
         "6 C17",
     ),
@@ -119,7 +122,8 @@ CHECKS = {
         "workload runs untraced and traced in fresh interpreters: results, stdout and the program's own hook calls must be equal and no "
         "journal entry may have a monkeytype frame on its stack. Single and double faults (log/flush/get_type/get_func raising, values whose "
         "inspection raises) x block exit x pre-installed profiler: nothing escapes, the block's own exception still propagates, profiler "
-        "restored, flush exactly once.",
+        "restored, flush exactly once. Runs with the shipped store logger, and with the shipped default filter under a module allow-list while "
+        "sys.modules holds objects whose attribute access is program code.",
         "A hook invoked with a monkeytype frame on the stack is user code run by the tracer; `monkeytype` logger output is not program output.",
         "6 C03",
     ),
@@ -162,7 +166,8 @@ CHECKS = {
         "Generated target modules are driven with value-grammar call histories through the real CLI (in-process cli.main): one traced run per "
         "max_typed_dict_size in {0,1,2,3,10}, then a stub for each of 7 rewriter configurations x {default, --ignore-existing-annotations, "
         "--omit-existing-annotations, --disable-type-rewriting}; every value the driver recorded at a parameter, return or yield must be a "
-        "member of the annotation the stub text gives that position, evaluated with the stub's own names; stubs must parse and the commands succeed.",
+        "member of the annotation the stub text gives that position, evaluated with the stub's own names (a name no import of the stub provides is a "
+        "violation wherever it is met); stubs must parse and the commands succeed. Dict keys include non-identifiers and non-NFKC-stable strings.",
         "Driver recording via inspect.signature.bind is independent of the tracer; Iterator/Generator element types of argument values are unverifiable.",
         "6 C01",
     ),
@@ -172,7 +177,7 @@ CHECKS = {
         "Stores mixing valid rows (incl. rows of one function that disagree on parameter names, and classes of live modules whose names extend a "
         "removed module's) with every kind of stale row (17 mutation kinds, local-scope qualnames, subsets up to 3, shuffled orders, duplicates, and stores "
         "where nothing decodes) are given to `stub`, `stub -v` and `apply` against the mutated package: exit status 0, stdout / rewritten "
-        "file equal (up to union member order) to the run on the decodable rows alone, skipped count or one warning per skipped row on "
+        "file equal (up to union member order) to the run on the decodable rows alone (also for `<module>:<qualname prefix>` targets), skipped count or one warning per skipped row on "
         "stderr, 'No traces found' when nothing decodes.",
         "Staleness is known by construction; union member order is C14's subject.",
         "6 C10",
